@@ -168,3 +168,26 @@ Definition appended (l : line) (t : bytes) (r : res line) : Prop :=
 
 (* a fresh line: 2048 bytes of anything, index anywhere inside *)
 Definition line_ok (l : line) : Prop := wf l /\ (index l <= BUFSZ)%nat.
+
+(* value ranges of the Go argument types, and "the delegated standard-library text is the reference text" *)
+Definition ipv_ok (v : option bytes) : Prop := match v with Some ip => bytes_ok ip | None => True end.
+Definition op_ok (o : op) : Prop :=
+  match o with
+  | OUint _ v => v < 4294967296
+  | OHex8 _ v => v < 256
+  | OHex16 _ v => v < 65536
+  | OInt _ z t => t = dec_Z z                       (* strconv.AppendInt *)
+  | OMac _ m => bytes_ok m
+  | OIPSlice _ v => ipv_ok v
+  | OIP _ (Some b) t => t = addr_text (Some b)      (* netip.Addr.AppendTo *)
+  | OIPArr _ vs => Forall ipv_ok vs
+  | OByteArr _ v => bytes_ok v
+  | _ => True
+  end.
+
+(* every op of the line fits after the reference text of the ops before it *)
+Fixpoint line_fits (idx : nat) (os : list op) : bool :=
+  match os with
+  | [] => true
+  | o :: r => op_fits idx o && line_fits (idx + List.length (spec_text o)) r
+  end.
